@@ -102,6 +102,8 @@ structure WSt where
   shutdownPingAcked : Bool := false
   -- C14: we have acknowledged a SETTINGS that changed the peer's SETTINGS_INITIAL_WINDOW_SIZE
   peerIwsChanged : Bool := false
+  -- C17: the GOAWAY frames the peer sent, oldest first: (last-stream-id, error code)
+  rxGoaways : List (Nat × Nat) := []
   deriving Repr
 
 def WSt.get (w : WSt) (id : Nat) : Option Str := w.strs.find? (·.id = id)
@@ -114,7 +116,9 @@ def ours (r : Role) (id : Nat) : Bool :=
   id ≠ 0 && (match r with | .client => id % 2 == 1 | .server => id % 2 == 0)
 
 /-- closed on the wire: both directions ended, or a reset either way -/
-def Str.closed (s : Str) : Bool := (s.txEnd && s.rxEnd) || s.txRst > 0 || s.rxRst
+def Str.closed (s : Str) : Bool :=
+  -- (a pushed stream has one direction only: it starts half-closed towards the endpoint that promised it)
+  ((s.txEnd || s.reservedByPeer) && (s.rxEnd || s.reservedByUs)) || s.txRst > 0 || s.rxRst
 
 /-- "open on the wire" for the concurrency limit (RFC 9113 §5.1.2: open or half-closed) -/
 def Str.countsOpen (s : Str) : Bool := s.txFinal && ¬ s.closed
@@ -176,6 +180,13 @@ def tx (w : WSt) (f : Fr) : WSt × List Viol :=
             (if ours w.role sid ∧ ¬ s.reservedByUs ∧ w.role = .server then ["C04 headers-on-unopened-stream"] else []) ++
             (if ¬ ours w.role sid ∧ s.rxHeaders = 0 then ["C04 headers-on-idle-stream"] else []) ++
             (if s.txFinal ∧ ¬ info ∧ fl % 2 ≠ 1 then ["C04 second-final-headers-without-END_STREAM"] else []) ++
+            -- a promised stream starts to count against the peer's limit when its response begins (RFC 9113 section 5.1.2)
+            (if s.reservedByUs ∧ ¬ s.txFinal ∧ ¬ info then
+              match w.peerMaxConc with
+              | some m => if (w.strs.filter fun x => ours w.role x.id && x.countsOpen).length ≥ m
+                          then ["C05 pushed-response-exceeds-peer-max-concurrent-streams"] else []
+              | none => []
+             else []) ++
             (if s.txFinal then (Http.trailers fields).map fun r => "C13 tx-trailers-" ++ r
              else if w.role = .server ∨ s.reservedByUs then (Http.response fields).map fun r => "C13 tx-response-" ++ r
              else [])
@@ -205,10 +216,12 @@ def tx (w : WSt) (f : Fr) : WSt × List Viol :=
         (if ¬ w.peerPush then ["C04 push-while-peer-disabled-it"] else []) ++
         (match w.get sid with
          | none => ["C04 push-promise-on-idle-stream"]
-         | some s => (if s.txEnd ∨ s.txRst > 0 ∨ s.rxRst then ["C04 push-promise-on-closed-parent"] else [])) ++
+         -- (a RST_STREAM of the peer may still be unread when the promise is written: only what WE did to the parent counts)
+         | some s => (if s.txEnd ∨ s.txRst > 0 then ["C04 push-promise-on-closed-parent"] else [])) ++
         (if ¬ ours w.role promised then ["C04 promised-id-wrong-parity"] else []) ++
         (if promised ≤ w.maxLocalId then ["C04 promised-id-not-increasing"] else [])
-      let s : Str := { id := promised, reservedByUs := true, recvAdvert := w.ourIwsAcked }
+      -- (what we may send on the promised stream is governed by the peer's acknowledged initial window, like on any other)
+      let s : Str := { id := promised, reservedByUs := true, recvAdvert := w.ourIwsAcked, sendCredit := w.peerIws }
       ({ (w.put s) with maxLocalId := max w.maxLocalId promised }, viols)
     | .rst sid _ =>
       if sid = 0 then (w, ["C04 rst-on-stream-0"])
@@ -324,7 +337,7 @@ def rx (w : WSt) (f : Fr) : WSt × List Viol :=
       (if w.gracefulNoticeSent && payload = [0x0b, 0x7b, 0xa2, 0xf0, 0x8b, 0x9b, 0xfe, 0x54]
         then { w with shutdownPingAcked := true } else w, [])
     else ({ w with rxPings := w.rxPings ++ [payload] }, [])
-  | .goaway last _ _ => ({ w with rxGoaway := some last }, [])
+  | .goaway last code _ => ({ w with rxGoaway := some last, rxGoaways := w.rxGoaways ++ [(last, code)] }, [])
   | _ => (w, [])
 
 -- ============================================================================ application-level facts
@@ -367,7 +380,7 @@ def quiescent (w : WSt) : List Viol :=
   (if ¬ w.rxSettingsQ.isEmpty ∧ w.txGoaway.isNone then ["C14 SETTINGS-never-acknowledged"] else []) ++
   (if ¬ w.rxPings.isEmpty ∧ w.txGoaway.isNone then ["C14 PING-never-answered"] else []) ++
   (w.strs.filterMap fun s =>
-    if w.apiResets.any (·.1 = s.id) ∧ s.txHeaders > 0 ∧ s.txRst = 0 ∧ ¬ (s.txEnd ∧ s.rxEnd) ∧ ¬ s.rxRst ∧ ¬ w.txGoawayErr
+    if w.apiResets.any (·.1 = s.id) ∧ s.txHeaders > 0 ∧ s.txRst = 0 ∧ ¬ (s.txEnd ∧ (s.rxEnd ∨ s.reservedByUs)) ∧ ¬ s.rxRst ∧ ¬ w.txGoawayErr
        ∧ w.txGoaway.isNone ∧ (match w.rxGoaway with | some last => decide (s.id ≤ last) | none => true) = true
     then some s!"C17 no-RST_STREAM-for-reset-stream-{s.id}" else none)
 
@@ -404,6 +417,20 @@ def quiescentStream (w : WSt) (sid : Nat) (recvWindow sendWindow : Int) (recvHan
           [s!"C14 stream-send-window({sendWindow})-is-not-what-the-acknowledged-SETTINGS_INITIAL_WINDOW_SIZE-leaves({s.sendCredit})"]
          else [])
       else [])
+
+/-- C17, a GOAWAY from the peer surfaces with the peer's exact code: a handle of a stream that we had opened on
+    the wire and that reports a remote GOAWAY error names the code of the FIRST GOAWAY whose last-stream-id lies
+    below the stream (that frame refused it; earlier ones covered it, later ones find it already failed). -/
+def goawayCode (w : WSt) (sid reported : Nat) : List Viol :=
+  match w.get sid with
+  | none => []
+  | some s =>
+    if s.txHeaders = 0 ∨ ¬ ours w.role sid then []
+    else match w.rxGoaways.find? (fun g => g.1 < sid) with
+      | some (_, code) =>
+        if code ≠ reported then
+          [s!"C17 handle-reports-GOAWAY-code-{reported}-but-the-GOAWAY-that-refused-stream-{sid}-said-{code}"] else []
+      | none => []
 
 /-- C15: the connection future completed although the transport neither failed nor reached EOF: the endpoint
     ended the connection of its own accord (shutdown, idle client, a fatal error of the peer) and has told the
